@@ -518,7 +518,10 @@ func (s *stdioTransport) processMessage(ctx context.Context, line string, writer
 func (s *stdioTransport) writeResponse(response interface{}, writer io.Writer) error {
 	data, err := json.Marshal(response)
 	if err != nil {
-		return fmt.Errorf("error marshaling response: %w", err)
+		// The result cannot be encoded: answer with an internal error instead of nothing.
+		if data, err = json.Marshal(encodingErrorResponse(response, err)); err != nil {
+			return fmt.Errorf("error marshaling response: %w", err)
+		}
 	}
 
 	if _, err := writer.Write(data); err != nil {
